@@ -143,6 +143,9 @@ def sig_match(sig, facts):
         elif isinstance(want, dict) and "subset" in want:
             if not set(have or []) <= set(want["subset"]):
                 return False
+        elif isinstance(want, list) and isinstance(have, list):
+            if sorted(map(str, want)) != sorted(map(str, have)):      # a set-valued fact must match exactly
+                return False
         elif isinstance(want, list):
             if have not in want:
                 return False
